@@ -30,6 +30,7 @@ class Session(object):
         self.attempts = {}
         self.items_acc = {}      # (task, route) -> accumulated item results (provider side)
         self.offers_log = []
+        self.last_reported = {}  # in-flight key -> last non-final status reported
         self.tags = []           # parallel to trace: what provider operation each call belongs to
         self.inflight_log = []   # parallel to trace: in-flight set right after the call
 
@@ -90,8 +91,17 @@ class Session(object):
     def report(self, key, status, result=None):
         """Report a status for an in-flight action; completed statuses leave the set."""
         t, r, item = key
+        # an action that reported paused or resuming runs again before it can complete (provider protocol)
+        if self.last_reported.get(key) in ("paused", "resuming") and status in ("succeeded", "failed", "timeout", "abandoned"):
+            self.last_reported[key] = "running"
+            if item is None:
+                self.call(["event", t, r, ["action", "running", None]], "report")
+            else:
+                self.call(["event", t, r, ["item", item, "running", None, None]], "report")
+        self.last_reported[key] = status
         if status in ("succeeded", "failed", "timeout", "abandoned", "canceled"):
             self.inflight.pop(key, None)
+            self.last_reported.pop(key, None)
         if item is None:
             return self.call(["event", t, r, ["action", status, result]], "report")
         acc = self.items_acc.setdefault((t, r), {})
